@@ -425,9 +425,53 @@ def rule_r8(chk, facts, P):
         raise AnalysisBroken('closes of ErrorFile not found')
 
 
+def rule_r9(chk, facts, P):
+    chk.rule('C02-R9', 'the -maxerrors limit is compared with the number of errors only: every comparison with MaxErrors has '
+             'ErrorCount (or a local that only ever holds ErrorCount) on the other side - warnings never stop the assembly '
+             'or remove the code file', min_instances=1)
+    n = 0
+    for f in P.all_funcs():
+        if f.entry is None or f.unit.name not in ('asmerr.c', 'as.c', 'asmsub.c'):
+            continue
+        for b, blk in f.blocks.items():
+            c = blk.get('cond')
+            if c is None:
+                continue
+            for m in walk(c):
+                if not (isinstance(m, (list, tuple)) and m and m[0] == 'b' and m[1] in ('<', '<=', '>', '>=', '==', '!=')):
+                    continue
+                l, r = nocast(m[2]), nocast(m[3])
+                other = r if (l[0] in GLOBKINDS and l[1] == 'MaxErrors') else (l if (r[0] in GLOBKINDS and r[1] == 'MaxErrors') else None)
+                if other is None or const_val(other) is not None:
+                    continue
+                n += 1
+
+                def only_errors(e, depth=0):
+                    e = nocast(e)
+                    if e[0] in GLOBKINDS:
+                        return e[1] == 'ErrorCount'
+                    if e[0] == 'u' and e[1] in ('++x', 'x++'):
+                        return only_errors(e[2], depth)
+                    if e[0] == 'l' and depth < 3:
+                        ds = [d for bb, ii, ll, d in f.nodes() if is_assign(d) and nocast(d[2]) == e]
+                        return bool(ds) and all(d[1] == '=' and only_errors(d[3], depth + 1) for d in ds)
+                    if e[0] == '?':
+                        return only_errors(e[2], depth) and only_errors(e[3], depth)
+                    return False
+                ok = only_errors(other)
+                chk.ob('C02-R9', '%s:%s:MaxErrors-vs-%s' % (f.unit.name, f.name, show(other)[:30]), ok,
+                       f.loc(blk['term'][1] if blk.get('term') else None),
+                       'compared with the error count' if ok else
+                       'the limit is compared with %s, which can hold the warning count: with -maxerrors N the N-th warning ends '
+                       'the assembly with status 3 and removes the code file although no error was reported' % show(other))
+    if not n:
+        raise AnalysisBroken('no comparison with MaxErrors found')
+
+
 def run(chk, facts, info):
     P = facts.program('asl')
     rule_r8(chk, facts, P)
+    rule_r9(chk, facts, P)
     rule_r1(chk, facts, P)
     rule_r2(chk, facts, P)
     rule_r3(chk, facts, P)
